@@ -401,34 +401,67 @@ def r53(ctx):
     ctx.floor("R5.3", "delegating OnchainValidator methods", n, 15)
 
 
-def r54(ctx):
-    ctx.rule("R5.4", "policy filter: unmatched tags are errors; policy_error returns Err unless the filter says Warn")
+def r54(ctx, rid="R5.4"):
+    ctx.rule(rid, "policy filter: unmatched tags are errors; policy_error returns Err unless the filter says Warn")
     p = ctx.prog
     fb = p.fn(LS + "policy::filter::PolicyFilter::filter")
     fv = fnview(ctx, fb)
-    # the fall-through return (after the loop) is FilterResult::Error
+    # first matching rule decides, default Error.  Accepted spellings: a `for` loop over the rules that returns the matched
+    # rule's action, or Iterator::find / find_map / position over the rules (all "first match") with the action mapped out and
+    # Error as the default.
     ls = R.loops_over(fv, lambda s: "rules" in s)
-    ctx.ob("R5.4", len(ls) == 1, f"{fb.name}/loop", "PolicyFilter::filter no longer iterates its rules", where=f"{fb.file}:{fb.line}")
+    finds = [(bi, c) for bi, c in fb.calls() if c.callee and c.callee.name.rsplit("::", 1)[-1] in ("find", "find_map", "position")
+             and "rules" in render(fv.expr(c.args[0]))]
+    ctx.ob(rid, len(ls) == 1 or len(finds) == 1, f"{fb.name}/loop",
+           "PolicyFilter::filter no longer walks its rules in order up to the first match (a `for` loop with an early return, or "
+           "find / find_map / position): a later or broader rule can override an earlier, more specific one",
+           where=f"{fb.file}:{fb.line}")
+    # what is returned on a match is the matched rule's own action (a value read from a FilterRule's `action` field)
+    from engine.cfg import subexprs as _sub
+    def _from_action(e):
+        return any(x[0] == "field" and x[3] == "action" for x in _sub(e))
+    acts = []
+    for r in fv.return_sites():
+        e = None
+        if "stmt" in r and r["stmt"].rv.ops:
+            e = fv.expr(r["stmt"].rv.ops[0])
+        elif "call" in r:
+            e = fv._call_expr(r["call"], 0)
+        if e is not None and (_from_action(e) or any(_from_action(fv.expr(a)) for a in (r["call"].args if "call" in r else []))):
+            acts.append(r)
+    in_closure = False
+    for cb_ in p.closures_of(fb):
+        cv_ = fnview(ctx, cb_)
+        for r in cv_.return_sites():
+            if "stmt" in r and r["stmt"].rv.ops and _from_action(cv_.expr(r["stmt"].rv.ops[0])):
+                in_closure = True
+    ctx.ob(rid, bool(acts) or in_closure, f"{fb.name}/returns-matched-action",
+           "PolicyFilter::filter does not return the matched rule's own action: an Error rule that pins a tag to enforcement is "
+           "ignored (or a Warn rule is), so a policy the operator kept mandatory is only logged",
+           where=f"{fb.file}:{fb.line}", sample="return rule.action on the first match")
     for h, c, be, ee in ls:
         after_exit = set()
         for (u, v) in ee:
             after_exit |= fv.reach(v)
-        rets = [r for r in fv.return_sites() if r["block"] in after_exit and not any(r["block"] in fv.reach(v2) and False for v2 in [])]
+        rets = [r for r in fv.return_sites() if r["block"] in after_exit]
         vals = set()
         for r in rets:
             if "stmt" in r and r["stmt"].rv.ops:
                 vals.add(render(fv.expr(r["stmt"].rv.ops[0])))
             else:
                 vals.add(r["how"])
-        exit_only = [r for r in rets if not any(r["block"] in fv.reach(v) for (_, v) in be if True) or True]
-        ctx.ob("R5.4", any("Error" in v for v in vals), f"{fb.name}/default-error",
+        ctx.ob(rid, any("Error" in v for v in vals), f"{fb.name}/default-error",
                f"PolicyFilter::filter falls through to {sorted(vals)} for an unmatched tag (expected FilterResult::Error)",
                where=f"{fb.file}:{fb.line}", sample=sorted(vals))
+    if not ls:
+        txt = " ".join(render(fv.expr(a)) for bi, c in fb.calls() for a in c.args) + " ".join(r["how"] for r in fv.return_sites())
+        ctx.ob(rid, "Error" in txt, f"{fb.name}/default-error",
+               "PolicyFilter::filter has no FilterResult::Error default for an unmatched tag", where=f"{fb.file}:{fb.line}")
     # make_policy_error_with_filter: Ok only when filter(..) != Error
     mb = p.fn(LS + "policy::make_policy_error_with_filter")
     mv = fnview(ctx, mb)
     sites = R.comparison_sites(mv, lambda a, c: "filter(" in a and "Error" in c)
-    ctx.ob("R5.4", len(sites) == 1, f"{mb.name}/comparison", "make_policy_error_with_filter no longer compares the filter result with Error",
+    ctx.ob(rid, len(sites) == 1, f"{mb.name}/comparison", "make_policy_error_with_filter no longer compares the filter result with Error",
            where=f"{mb.file}:{mb.line}")
     for bi, c, is_ne, r0, r1 in sites:
         equal_edges = mv.result_edges(bi, c, "err" if is_ne else "ok")   # filter == Error
@@ -440,14 +473,14 @@ def r54(ctx):
         other = mv.result_edges(bi, c, "ok" if is_ne else "err")
         live_if_error = mv.reach(0, cut_edges=other)
         bad = [r for r in mv.return_sites() if r["kind"] == "ok" and R.site_block(r) in live_if_error]
-        ctx.ob("R5.4", not bad, f"{mb.name}/error-means-err", "policy errors can be downgraded although the filter says Error",
+        ctx.ob(rid, not bad, f"{mb.name}/error-means-err", "policy errors can be downgraded although the filter says Error",
                where=f"{mb.file}:{c.line}", sample="filter == Error  =>  Err(policy_error)")
     # the default filter has no rules
     db = p.fn(f"<{LS}policy::filter::PolicyFilter as std::default::Default>::default")
     dv = fnview(ctx, db)
     txt = " ".join(render(dv.expr(s.rv.ops[0])) if s.rv.ops else repr(s.rv) for bi in dv.live_blocks() for s in db.stmts(bi) if s.kind == "a")
     calls = [c.callee.name for bi, c in db.calls() if c.callee]
-    ctx.ob("R5.4", all("Vec" in n and "new" in n or "vec" in n.lower() for n in calls) and "FilterRule" not in txt,
+    ctx.ob(rid, all("Vec" in n and "new" in n or "vec" in n.lower() for n in calls) and "FilterRule" not in txt,
            f"{db.name}/empty", f"PolicyFilter::default is not empty: calls {calls}", where=f"{db.file}:{db.line}", sample=calls)
 
 
